@@ -41,6 +41,13 @@ def enumerate_all(tier, seed):
         ob["model"] = {"suite_id": rest_bad[0]["code"]}
         ob["native"] = {"reproduced": True, "observed": rest_bad[:5]}
     obs.append(ob)
+    unstable = doc.get("unstable", [])
+    ob = {"name": "cipher_suite.same_answer_on_every_later_call(3 sweeps, both orders)", "verdict": "refuted" if unstable else "discharged", "time_s": 0.0,
+          "backend": "enumeration", "kind": "dispatch"}
+    if unstable:
+        ob["model"] = {"suite_id": unstable[0]["code"]}
+        ob["native"] = {"reproduced": True, "observed": unstable[:5]}
+    obs.append(ob)
     ok = doc["evaluations"] == 65536 and len(doc["accepted"]) >= 1
     obs.append({"name": "cipher_suite.vacuity(65536 evaluated, >=1 accepted)", "verdict": "discharged" if ok else "unknown",
                 "time_s": 0.0, "backend": "enumeration", "kind": "cover"})
